@@ -284,9 +284,14 @@ def run_property(a, seed, run_contracts):
         for cid in sorted(clauses):
             c = clauses[cid]
             prev = old.get(cid, {})
-            if cid in proved_now:
+            kmap = getattr(mod, 'KNOWN', {})
+            if cid in kmap and kmap[cid].get('role') == 'full':
+                e = {'expect': 'known-fail', 'known_finding': kmap[cid]['finding']}
+            elif cid in proved_now:
                 e = {'expect': 'proved'}
-                if prev.get('known_finding'):
+                if cid in kmap:
+                    e['known_finding'] = kmap[cid]['finding']
+                elif prev.get('known_finding'):
                     e['known_finding'] = prev['known_finding']
             elif c.get('bounded'):
                 e = {'expect': 'bounded'}
